@@ -204,7 +204,7 @@ sys.exit(1 if rep else 0)
 
 def check_program(db, S, prog, dialect, pname, timeout_ms, validate=True, exclude=()):
     """exclude: known-finding keys of ANOTHER property whose input regions are assumed away (they are not this check's subject)"""
-    name = '%s: %s' % (dialect, prog.src)
+    name = '%s: %s%s' % (dialect, prog.src, ' [generator object]' if prog.form == 'generator' else '')
     res = e1.decide(db, S, prog, dialect, timeout_ms, exclude_regions=exclude)
     v = res['verdict']
     obs = []
@@ -276,6 +276,14 @@ PID = 'C01'
 def shape_key(prog):
     """known findings that are tied to a program shape rather than to an input region"""
     t = ast.parse(prog.src, mode='eval').body
+    if prog.form == 'generator':
+        # conditional expressions next to and/or are mis-decompiled (recorded for C03): the generator spelling of such a program
+        # is translated from the wrong tree
+        parents = {}
+        for n in ast.walk(t):
+            for ch in ast.iter_child_nodes(n): parents[ch] = n
+        for n in ast.walk(t):
+            if isinstance(n, ast.IfExp) and (not isinstance(parents.get(n), ast.GeneratorExp) or t.generators[0].ifs): return 'generator-spelling-misdecompiled'
     parts = t.elt.elts if isinstance(t.elt, ast.Tuple) else [t.elt]
     for part in parts:
         for n in ast.walk(part):
@@ -298,11 +306,33 @@ def _shard_worker(args):
     for i, prog in zip(idxs, progs):
         try:
             obs = check_program(db, S, prog, dialect, pname, t_limit, validate=validate, exclude=exclude)
+            obs += generator_spelling(db, S, prog, dialect, pname, t_limit, validate, exclude)
         except Exception as ex:
             import traceback
             obs = [Ob('%s: %s' % (dialect, prog.src), 'z3', INCONCLUSIVE, detail='harness exception: %s' % traceback.format_exc()[-400:])]
         out.append((i, obs))
     return out
+
+
+def generator_spelling(db, S, prog, dialect, pname, t_limit, validate, exclude):
+    """the same program as a live generator object (bytecode -> decompiler -> translator): when that path yields different SQL
+    text than the string spelling (the decompiler normalises negations through De Morgan), the text is a second translation
+    of the same source and gets its own obligation; identical text needs no second query"""
+    from pony.orm import db_session
+    if prog.form != 'string' or prog.chain: return []
+    g = Program(prog.src, prog.scope, 'generator', prog.note, int_range=prog.int_range)
+    try:
+        with db_session:
+            s1 = e1.real_sql(db, e1.build_query(db, prog))[0]
+    except Exception:
+        return []
+    try:
+        with db_session:
+            s2 = e1.real_sql(db, e1.build_query(db, g))[0]
+    except Exception as ex:
+        return [Ob('%s: %s [generator object]' % (dialect, prog.src), 'z3', REJECTED, detail='%s: %s' % (type(ex).__name__, str(ex)[:100]))]
+    if s1 == s2: return []
+    return check_program(db, S, g, dialect, pname, t_limit, validate=validate, exclude=exclude)
 
 
 def sharded(progs, cfg, procs=None):
